@@ -1,6 +1,7 @@
 (* C02 -- Accepts_b is the boolean form of Accepts (reflection). *)
 From Coq Require Import Lia ZifyBool Btauto.
-From CR Require Import Model.Config Model.ConfigSpec.
+From CR Require Import Model.Config.
+From CR Require Import Model.ConfigSpec.
 Local Open Scope Z_scope.
 
 Lemma with_value_iff o (Pb : Z -> bool) (P : Z -> Prop) :
